@@ -20,6 +20,7 @@ func init() {
 			"C07.status-after-drain: every load of pChunker.err/eof in IndexFromFile lies behind the closed edge of a receive from the same worker's results channel, counted from where the worker is picked. C07.tmp-rename: in writeWithTmpFile the rename onto the destination is reachable only through the nil-error edge of the assembly call, the temp file lives in the destination's directory and its removal is deferred.",
 		NotDecided: "timing of signal delivery; completeness of the work done when success is reported without cancellation; behaviour of the OS on rename.",
 		Rules: []rule{
+			{"C07.tar-index-needs-tar", "tar -i stores its index only when desync.Tar succeeded; a failed Tar never ends in success (shared with C06)", 1, func(c *Ctx) { c.tarIndexNeedsTar() }},
 			{"C07.done-is-error", "every return reachable from a fired ctx.Done() case returns a non-nil error (3 frozen service-loop exceptions)", 20, c07DoneIsError},
 			{"C07.err-is-error", "a branch taken because ctx.Err() is non-nil never ends in a nil error", 0, c07ErrIsError},
 			{"C07.loops-observe-ctx", "each long-running entry point reaches a ctx.Done() receive within call depth 3", 10, c07LoopsObserve},
@@ -572,6 +573,9 @@ func c07CommandsPropagate(c *Ctx) {
 		if n == 0 {
 			continue
 		}
+		if c.onlyCmds != nil && !c.onlyCmds[fnKey(fn)] {
+			continue
+		}
 		key := fnKey(fn) + ":ctx-errors"
 		if why, ok := c07PropagateExceptions[fnKey(fn)]; ok {
 			c.info(key, fn.Pos(), "exception: %s", why)
@@ -585,7 +589,7 @@ func c07CommandsPropagate(c *Ctx) {
 			c.ok(key, fn.Pos(), "%d context-taking call(s); a failure of each makes %s fail", sites, fnKey(fn))
 		}
 	}
-	if total < 10 {
+	if total < 10 && c.onlyCmds == nil {
 		c.bad("commands:ctx-errors", token.NoPos, "only %d context-taking calls found in the command package", total)
 	}
 }
